@@ -35,6 +35,7 @@ def run(ctx):
             xs = D.byte_stream(rng, n, rng.randint(1, 3), p["window_size"])
             p["feed"] = {"seed": rng.randrange(10 ** 6), "kinds": [rng.choice(["uint8array", "uint16array"])]}
         resets = sorted(rng.sample(range(5, n), rng.randint(0, 1)))
+        p["neighbour"] = i % 3 == 1        # a second detector of the same class alive next to this one, on its own stream
         ts.append(D.run_stream(p, xs, resets, seed=rng.randrange(10 ** 6)))
     ctx.validate("KdqDetector", ts, "KdqTreeStreaming bursty integer streams", sabotage=D.det_sabotage, replay=rep_stream(ts),
                  nontrivial=lambda t: any(e["state"] == "drift" for e in t["ev"]))
@@ -52,6 +53,7 @@ def run(ctx):
             p["feed"] = {"seed": rng.randrange(10 ** 6), "kinds": [rng.choice(["uint8array", "uint16array"])]}
         setrefs = sorted(rng.sample(range(2, n), rng.randint(0, 1)))
         resets = sorted(rng.sample(range(2, n), rng.randint(1, 2))) if i % 3 == 1 else []          # the caller's own reset(), also right after a drift
+        p["neighbour"] = i % 3 == 2
         tb.append(D.run_batch(p, bs, setrefs, first_is_reference=rng.random() < 0.8, seed=rng.randrange(10 ** 6), resets=resets))
     # heavy-tailed data with the default-like count_ubound: the reference tree then has sparsely filled outer leaves,
     # which is where a bootstrap that mis-bins its samples shows (critical value far outside the bracket)
